@@ -1095,6 +1095,19 @@ func genProcs(repo, out string) {
 		{file: "pkg/netpol/internal/common/connectionset.go", fn: "ConnectionSet.ContainedIn", lean: "containedIn",
 			sig: "(conn other : ConnSet) : Except Err Bool", pure: true, loopElem: "Proto",
 			protoMaps: map[string]string{"conn.AllowedProtocols": "conn", "other.AllowedProtocols": "other"}},
+		{file: "pkg/netpol/internal/common/portset.go", fn: "PortSet.AddPort", lean: "portSetAddPort",
+			sig: "(p : PortSet) (isName : Bool) (strVal : String) (intVal : Int) : Except Err PortSet", muts: []string{"p"}, result: "p",
+			atoms:    map[string]string{"port.Type == intstr.String": "isName", "port.StrVal": "strVal"},
+			nameMaps: map[string]string{"p.NamedPorts": "p.named", "p.ExcludedNamedPorts": "p.excluded"},
+			stmts:    map[string]string{"p.Ports.AddInterval(interval.New(int64(port.IntVal), int64(port.IntVal)))": "p := { p with ports := CSet.addIv (Iv.new intVal intVal) p.ports }"}},
+		{file: "pkg/netpol/internal/common/portset.go", fn: "PortSet.RemovePort", lean: "portSetRemovePort",
+			sig: "(p : PortSet) (isName : Bool) (strVal : String) (intVal : Int) : Except Err PortSet", muts: []string{"p"}, result: "p",
+			atoms:    map[string]string{"port.Type == intstr.String": "isName", "port.StrVal": "strVal"},
+			nameMaps: map[string]string{"p.NamedPorts": "p.named", "p.ExcludedNamedPorts": "p.excluded"},
+			stmts:    map[string]string{"p.Ports.AddHole(interval.New(int64(port.IntVal), int64(port.IntVal)))": "p := { p with ports := CSet.addHole (Iv.new intVal intVal) p.ports }"}},
+		{file: "pkg/netpol/internal/common/portset.go", fn: "PortSet.AddPortRange", lean: "portSetAddPortRange",
+			sig: "(p : PortSet) (minPort maxPort : Int) : Except Err PortSet", muts: []string{"p"}, result: "p",
+			stmts: map[string]string{"p.Ports.AddInterval(interval.New(minPort, maxPort))": "p := { p with ports := CSet.addIv (Iv.new minPort maxPort) p.ports }"}},
 		{file: "pkg/netpol/internal/common/portset.go", fn: "PortSet.Union", lean: "portSetUnion",
 			sig: "(p other : PortSet) : Except Err PortSet", muts: []string{"p"}, result: "p",
 			atoms:    map[string]string{"p.Ports.Union(other.Ports)": "(CSet.union p.ports other.ports)"},
